@@ -153,3 +153,8 @@ P["C11"]["st_any"] = _oper_bits                                             # op
 P["C19"]["st_any"] = st_kinds({"cnt"})                                      # the counters
 P["C08"]["st_any"] = _fields("chan", [2, 5, 6, 7, 8, 9, 10, 11, 12, 13, 14, 15])  # channel modes and rank lists
 P["C09"]["st_any"] = _fields("chan", [2, 3, 4])                             # topic and who set it
+
+# the frame theorem "a whole command of connection d neither reads nor writes the record of another
+# connection c" for all 41 handlers (it was only stated in C18.lean until it was proved)
+P["C18"].setdefault("extra_modules", [])
+P["C18"]["extra_modules"] = P["C18"]["extra_modules"] + ["Irc.Props.C18Frame"]
